@@ -21,6 +21,13 @@ package main
 //   binary-deep-recursion  the REAL BINARY (request kind cli): legal recursions 1000 / 2000 / 4000 / 4095 deep whose
 //                    recursive call sits inside 1 / 4 / 8 / 16 nested expressions complete with the right
 //                    value; the same shapes without a base case end with exit status 1 and a diagnostic
+//   fuzz-loop-limit  runs in fuzzing mode (request flag z): while / for loops whose rounds end by falling through,
+//                    by continue from anywhere inside the body, by the break of an inner loop; 10 001 rounds
+//                    complete, 10 002 end with the runtime error "fuzz test loop limit" (closed form, the model
+//                    has no fuzzing mode); the limit is per execution of one loop statement; for-in has none
+//   limits-after-fuzzing-run  in-process histories (seq) of runs in fuzzing mode and ordinary probe runs at every
+//                    limit of the property (recursion 257 .. 4097 frames deep, long loops, fill, width, JSON
+//                    nesting): the probe ends as the model says, as in a fresh process, as after other histories
 //
 // A crash or timeout of the implementation is flagged by core.go.
 
@@ -1075,6 +1082,363 @@ func c20BinaryDeep(r *rand.Rand, tier string, emit func(Case)) {
 	}
 }
 
+// ---------------------------------------------------------------- fuzzing mode: the loop limit
+
+// The only thing fuzzing mode (EvalProgram's last argument, request flag z) changes is that one
+// execution of a while / for statement is stopped with the runtime error "fuzz test loop limit"
+// once c20FuzzRounds rounds of it have reached the end of the loop body -- whatever way the
+// round ended (falling through, continue from anywhere inside the body, the break of an inner
+// loop). The check sits at the end of a round: a round that leaves by break / return is not
+// counted. for-in loops are bounded by their operand and carry no limit.
+const c20FuzzRounds = 10002 // the round at whose end the loop is stopped
+
+type c20LoopForm struct {
+	name    string
+	text    string              // # = the bound, § = the end of the round
+	counted func(bound int) int // rounds that reach the end of the body when the loop runs to completion
+}
+
+var c20LoopForms = []c20LoopForm{
+	{"while", "while (n < #) { n++; § }", func(b int) int { return b }},
+	{"for", "for (i = 0; i < #; i++) { n++; § }", func(b int) int { return b }},
+	{"for-true-break", "for (i = 0; true; i++) { n++; if (n >= #) break; § }", func(b int) int { return b - 1 }},
+	{"while-true-break", "while (true) { n++; if (n >= #) break; § }", func(b int) int { return b - 1 }},
+	{"while-call-condition", "while (below(n, #)) { n++; § }", func(b int) int { return b }},
+	{"for-no-post-effect", "for (n = 0; n < #; 1) { n++; § }", func(b int) int { return b }},
+}
+
+// ways in which a round ends; none changes n or prints
+var c20RoundEnds = [][2]string{
+	{"falls-through", "x = 1"},
+	{"continue", "continue"},
+	{"continue-then-dead-code", "continue; print \"unreachable\""},
+	{"if-continue", "if (n > 0) continue; print \"unreachable\""},
+	{"if-block-continue", "if (n > 0) { continue }\n print \"unreachable\""},
+	{"else-continue", "if (n < 0) { x = 1 } else { continue }"},
+	{"continue-every-other-round", "if (n % 2 == 0) continue; x = x + 1"},
+	{"continue-all-but-every-97th-round", "if (n % 97 != 0) continue; x = x + 1"},
+	{"match-block-continue", "match (n) { _ => { continue } }"},
+	{"nested-match-blocks-continue", "match (n % 2) { 0 => { match (n) { w => { continue } } }, _ => { continue } }"},
+	{"nested-block-continue", "{ { continue } }"},
+	{"if-in-block-in-if-continue", "if (n > 0) { { if (true) continue } }"},
+	{"inner-for-break", "for (j = 0; j < 3; j++) { if (j == 1) break }"},
+	{"inner-while-break", "while (true) { break }"},
+	{"inner-for-in-break", "for (e in [1, 2, 3]) { break }"},
+	{"inner-for-in-continue", "for (e in [1, 2]) { continue }"},
+	{"inner-for-continue-then-continue", "for (j = 0; j < 2; j++) { continue }\n continue"},
+	{"inner-break-from-match-body", "while (true) { match (1) { _ => { break } } }"},
+	{"call-returning-out-of-a-loop", "leave(n)"},
+	{"inner-while-continue-then-falls-through", "k = 0; while (k < 2) { k++; continue }"},
+}
+
+// where the loop stands; the loop is always on line 3, "before" is printed first
+var c20LoopPlaces = []struct{ name, pre, post, doc string }{
+	{"BEGIN", "BEGIN { print \"before\"\nn = 0\n", "\nprint \"after\", n }\n", ""},
+	{"function", "function run() { print \"before\"\nn = 0\n", "\nprint \"after\", n }\nBEGIN { run() }\n", ""},
+	{"rule-body", "{ print \"before\"\nn = 0\n", "\nprint \"after\", n }\n", "[7]"},
+	{"END", "END { print \"before\"\nn = 0\n", "\nprint \"after\", n }\n", "[7, 8]"},
+	{"match-body", "BEGIN { match (1) { _ => { print \"before\"\nn = 0\n", "\nprint \"after\", n } }\n}\n", ""},
+}
+
+const c20LoopFuncs = "function below(a, b) { return a < b }\nfunction leave(v) { for (q in [1, 2]) { if (q == 1) return v } }\n"
+
+func c20FuzzOracle(wantStop bool, wantOut string, line int) func(Resp) string {
+	return func(i Resp) string {
+		out := string(i.Bytes("out"))
+		if wantStop {
+			if i["class"] != "runtime" || !strings.Contains(i["msg"], "fuzz_test_loop_limit") {
+				return fmt.Sprintf("fuzzing mode: a loop statement running for %d rounds or more must be stopped with the runtime error \"fuzz test loop limit\", got class %s %s, output %q", c20FuzzRounds, i["class"], i["msg"], c07Short(out))
+			}
+			if line > 0 && i["line"] != fmt.Sprint(line) {
+				return fmt.Sprintf("the loop limit error is reported on line %s, the loop is on line %d", i["line"], line)
+			}
+		} else if i["class"] != "ok" {
+			return fmt.Sprintf("fuzzing mode: no loop statement runs for %d rounds here, the run must complete; got class %s %s", c20FuzzRounds, i["class"], i["msg"])
+		}
+		if out != wantOut {
+			return fmt.Sprintf("output differs: got %q want %q", c07Short(out), c07Short(wantOut))
+		}
+		return ""
+	}
+}
+
+func c20FuzzLoops(r *rand.Rand, tier string, emit func(Case)) {
+	okOrRuntime := func(i Resp) bool { return i["class"] == "ok" || i["class"] == "runtime" }
+	// rounds counted when the loop runs to completion; at c20FuzzRounds and beyond it is stopped
+	rounds := []int{c20FuzzRounds - 1, c20FuzzRounds}
+	if tier == "thorough" {
+		rounds = []int{1, 2, c20FuzzRounds - 2, c20FuzzRounds - 1, c20FuzzRounds, c20FuzzRounds + 1, c20FuzzRounds + 2, 2 * c20FuzzRounds, 3 * c20FuzzRounds, 100000}
+	}
+	k := 0
+	for fi, f := range c20LoopForms {
+		for ei, e := range c20RoundEnds {
+			for _, cnt := range rounds {
+				bound := cnt + 1000 - f.counted(1000) // inverse of counted
+				if f.counted(bound) != cnt {
+					panic("c20FuzzLoops: bound")
+				}
+				places := []int{(fi + ei + k) % len(c20LoopPlaces)}
+				if tier == "thorough" {
+					places = []int{0, 1, 2, 3, 4}
+				}
+				k++
+				for _, pi := range places {
+					pl := c20LoopPlaces[pi]
+					loop := strings.ReplaceAll(strings.ReplaceAll(f.text, "#", fmt.Sprint(bound)), "§", e[1])
+					prog := pl.pre + loop + pl.post + c20LoopFuncs
+					var files []File
+					if pl.doc != "" {
+						files = []File{{Name: "in.json", Data: []byte(pl.doc)}}
+					}
+					full := fmt.Sprintf("before\nafter %d\n", bound)
+					stop := cnt >= c20FuzzRounds
+					want := full
+					if stop {
+						want = "before\n"
+					}
+					meta := metaProg(prog, "probe", fmt.Sprintf("fuzzing mode: %s loop in %s, %d rounds reach the end of the body (each ends by %s); stopped from %d on", f.name, pl.name, cnt, e[0], c20FuzzRounds),
+						"row", f.name+" / "+e[0], "col", fmt.Sprintf("%d rounds", cnt))
+					emit(Case{ID: fmt.Sprintf("z/%s/%s/%s/%d", f.name, e[0], pl.name, cnt), Req: RunReqFuzz(prog, nil, files), ImplOnly: true,
+						Meta: meta, Oracle: c20FuzzOracle(stop, want, 3), NonTrivial: okOrRuntime})
+					// the same program in an ordinary run is not limited at all (compared with the model)
+					if stop && (tier == "thorough" && pi == 0 || tier != "thorough" && k%8 == 0) {
+						emit(Case{ID: fmt.Sprintf("plain/%s/%s/%s/%d", f.name, e[0], pl.name, cnt), Req: RunReq(prog, nil, files, false), Fields: []string{"class", "out"},
+							Meta:   metaProg(prog, "probe", fmt.Sprintf("ordinary run: %s loop, %d rounds (each ends by %s) complete", f.name, cnt, e[0]), "row", "ordinary run", "col", fmt.Sprintf("%d rounds", cnt)),
+							Oracle: c20Oracle("ok", c20Exact(full)), NonTrivial: okOrRuntime})
+					}
+				}
+			}
+		}
+	}
+	// the limit is per execution of a loop statement: an outer loop (or the record loop) around an
+	// inner loop of `inner` rounds
+	type nest struct {
+		name, pre, post, doc string
+		outer                int
+	}
+	nests := []nest{
+		{"for-around-while", "BEGIN { print \"before\"\nn = 0\nfor (o = 0; o < 3; o++) { k = 0; ", " }\nprint \"after\", n }\n", "", 3},
+		{"while-around-while", "BEGIN { print \"before\"\nn = 0\no = 0; while (o < 2) { o++; k = 0; ", "\n continue }\nprint \"after\", n }\n", "", 2},
+		{"for-in-around-while", "BEGIN { print \"before\"\nn = 0\nfor (e in [1, 2, 3, 4]) { k = 0; ", "\n if (e > 0) continue }\nprint \"after\", n }\n", "", 4},
+		{"for-in-over-string-around-while", "BEGIN { print \"before\"\nn = 0\nfor (c in \"ab\") { k = 0; ", " }\nprint \"after\", n }\n", "", 2},
+		{"records-around-while", "BEGIN { print \"before\"\nn = 0 }\n{ k = 0; ", " }\nEND { print \"after\", n }\n", "[1, 2, 3]", 3},
+		{"calls-around-while", "function w() { k = 0; ", " }\nBEGIN { print \"before\"\nn = 0\nw(); w()\nprint \"after\", n }\n", "", 2},
+	}
+	inners := []string{
+		"while (k < #) { k++; n++; § }",
+		"for (k = 0; k < #; k++) { n++; § }",
+	}
+	for ni, ns := range nests {
+		for ii, in := range inners {
+			for ei, e := range c20RoundEnds {
+				if tier != "thorough" && (ni+ii+ei)%5 != 0 {
+					continue
+				}
+				for _, cnt := range []int{c20FuzzRounds - 1, c20FuzzRounds} {
+					prog := ns.pre + strings.ReplaceAll(strings.ReplaceAll(in, "#", fmt.Sprint(cnt)), "§", strings.ReplaceAll(e[1], "k = 0; while (k < 2) { k++; continue }", "m = 0; while (m < 2) { m++; continue }")) + ns.post + c20LoopFuncs
+					var files []File
+					if ns.doc != "" {
+						files = []File{{Name: "in.json", Data: []byte(ns.doc)}}
+					}
+					stop := cnt >= c20FuzzRounds
+					want := fmt.Sprintf("before\nafter %d\n", ns.outer*cnt)
+					if stop {
+						want = "before\n"
+					}
+					emit(Case{ID: fmt.Sprintf("nest/%s/%d/%s/%d", ns.name, ii, e[0], cnt), Req: RunReqFuzz(prog, nil, files), ImplOnly: true,
+						Meta: metaProg(prog, "probe", fmt.Sprintf("fuzzing mode: %s, %d executions of an inner loop of %d rounds each (rounds end by %s): the limit counts the rounds of one execution of one loop statement", ns.name, ns.outer, cnt, e[0]),
+							"row", "nest "+ns.name, "col", fmt.Sprintf("%d rounds", cnt)),
+						Oracle: c20FuzzOracle(stop, want, 0), NonTrivial: okOrRuntime})
+				}
+			}
+		}
+	}
+	// for-in is bounded by its operand: 12 000 elements are walked, whatever way a round ends;
+	// an inner while loop of the body is limited as everywhere
+	var doc strings.Builder
+	doc.WriteString("{\"a\": [")
+	for i := 0; i < 12000; i++ {
+		if i > 0 {
+			doc.WriteByte(',')
+		}
+		doc.WriteString(fmt.Sprint(i % 10))
+	}
+	doc.WriteString("]}")
+	big := []File{{Name: "in.json", Data: []byte(doc.String())}}
+	for ei, e := range c20RoundEnds {
+		if tier != "thorough" && ei%4 != 1 {
+			continue
+		}
+		prog := "{ print \"before\"\nn = 0\nfor (v in $.a) { n++; " + e[1] + " }\nprint \"after\", n }\n" + c20LoopFuncs
+		emit(Case{ID: "forin/" + e[0], Req: RunReqFuzz(prog, nil, big), ModelReq: RunReq(prog, nil, big, false), Fields: []string{"class", "out"},
+			Meta:   metaProg(prog, "probe", "fuzzing mode: for-in over 12 000 elements (rounds end by "+e[0]+") is bounded by its operand and completes", "input", "{\"a\": [12 000 digits]}", "row", "for-in", "col", "12000 rounds"),
+			Oracle: c20FuzzOracle(false, "before\nafter 12000\n", 0), NonTrivial: okOrRuntime})
+	}
+}
+
+// ---------------------------------------------------------------- fuzzing mode: no limit changes for later runs
+
+// c20Probe is an ordinary run at one of the limits with its closed-form outcome.
+type c20Probe struct {
+	name, prog string
+	files      []File
+	class      string
+	out        string
+	loopFree   bool // no while / for statement: the run is the same in fuzzing mode
+}
+
+func c20LimitProbes(r *rand.Rand, tier string) []c20Probe {
+	var ps []c20Probe
+	// recursion with the deepest point at `target` open frames (or the nearest depth the shape reaches)
+	targets := []int{257, 258, 300, 512, 1000, 1025, 2048, 3000, 4095, c20Limit, c20Limit + 1}
+	for si, s := range c20Shapes {
+		for ti, target := range targets {
+			if tier != "thorough" && (si+ti)%4 != 0 && !(target == c20Limit && si%2 == 0) {
+				continue
+			}
+			n := c20MaxArg(s, target)
+			if target > c20Limit {
+				n = c20MaxArg(s, c20Limit) + 1
+			}
+			prog := s.funcs + "BEGIN { print \"start\"\n print " + fmt.Sprintf(s.call, n) + "\n print \"after\" }\n"
+			p := c20Probe{name: fmt.Sprintf("%s recursion, %d frames open at the deepest point", s.name, s.frames(n)), prog: prog, class: "ok",
+				out: "start\n" + s.result(n) + "\nafter\n", loopFree: !strings.Contains(s.funcs, "for (")}
+			if s.frames(n) > c20Limit {
+				p.class, p.out = "runtime", "start\n"
+			}
+			ps = append(ps, p)
+		}
+	}
+	// recursion started from a record, 600 frames
+	{
+		s := c20Shapes[0]
+		ps = append(ps, c20Probe{name: "direct recursion 600 deep in each of 3 records", prog: s.funcs + "{ print f(600 + $) }\n",
+			files: []File{{Name: "in.json", Data: []byte("[0, 1, 2]")}}, class: "ok", out: "600\n601\n602\n", loopFree: true})
+	}
+	// loops are not limited in an ordinary run
+	for _, l := range []string{"while (n < 10002) { n++ }", "while (n < 15000) { n++; continue }", "for (i = 0; i < 10003; i++) { n++; if (n > 0) continue }",
+		"for (i = 0; i < 12000; i++) { match (i) { _ => { n++; continue } } }"} {
+		want := 15000
+		for _, c := range []int{10002, 10003, 12000} {
+			if strings.Contains(l, fmt.Sprint(c)) {
+				want = c
+			}
+		}
+		ps = append(ps, c20Probe{name: "a loop of more than 10 001 rounds", prog: "BEGIN { print \"start\"\n n = 0\n " + l + "\n print \"after\", n }\n", class: "ok", out: fmt.Sprintf("start\nafter %d\n", want)})
+	}
+	// the other limits of the property
+	ps = append(ps,
+		c20Probe{name: "array fill at 2^20", prog: "BEGIN { print \"start\"\n a[1048576] = 1\n print a.length() }\n", class: "ok", out: "start\n1048577\n", loopFree: true},
+		c20Probe{name: "array fill at 2^20+1", prog: "BEGIN { print \"start\"\n a[1048577] = 1\n print a.length() }\n", class: "runtime", out: "start\n", loopFree: true},
+		c20Probe{name: "printf width 65536", prog: "BEGIN { print \"start\"\n printf(\"%65536s|\\n\", \"x\")\n print \"after\" }\n", class: "ok", out: "start\n" + strings.Repeat(" ", 65535) + "x|\nafter\n", loopFree: true},
+		c20Probe{name: "printf width 65537", prog: "BEGIN { print \"start\"\n printf(\"%65537s|\\n\", \"x\")\n print \"after\" }\n", class: "runtime", out: "start\n", loopFree: true},
+	)
+	walk := "BEGIN { print \"start\" }\nBEGINFILE { d = 0; v = $\n while (v is array) { d++\n v = v[0] }\n print \"depth\", d }\n"
+	ps = append(ps,
+		c20Probe{name: "input nested 10 000 deep", prog: walk, files: []File{{Name: "in.json", Data: []byte(c20Nest("array", 10000))}}, class: "ok", out: "start\ndepth 10000\n"},
+		c20Probe{name: "input nested 10 001 deep", prog: walk, files: []File{{Name: "in.json", Data: []byte(c20Nest("array", 10001))}}, class: "json", out: "start\n", loopFree: true},
+	)
+	return ps
+}
+
+// runs in fuzzing mode that may leave something behind: (program, input)
+var c20FuzzRuns = []struct {
+	name, prog, doc string
+}{
+	{"a one-line program", "BEGIN { print 1 }\n", ""},
+	{"a loop stopped by the loop limit", "BEGIN { while (true) { n++ } }\n", ""},
+	{"runaway recursion stopped by the call depth limit", "function f(n) { return f(n + 1) }\nBEGIN { f(0) }\n", ""},
+	{"recursion 1000 deep", "function f(n) { if (n <= 1) return 1\n return 1 + f(n - 1) }\nBEGIN { print f(1000) }\n", ""},
+	{"rules with loops over three records", "{ for (i = 0; i < 100; i++) { t += $ } }\nEND { print t }\n", "[1, 2, 3]"},
+	{"a program with a syntax error", "BEGIN { print ( }\n", ""},
+	{"the loop limit hit 300 calls deep, inside match bodies", "function g(d) { if (d > 0) return match (d) { x => g(x - 1) }\n while (true) { } }\nBEGIN { g(300) }\n", ""},
+	{"a runtime error in a rule", "{ print $.a.b.c() }\n", "[1]"},
+	{"a broken input document", "{ print }\n", "[1, 2"},
+	{"a for loop stopped by the loop limit in END after records", "{ n++ }\nEND { for (q = 0; n > 0; q++) { m++ } }\n", "[1, 2]"},
+}
+
+func c20AfterFuzzing(r *rand.Rand, tier string, emit func(Case)) {
+	fz := func(k int) string {
+		f := c20FuzzRuns[k%len(c20FuzzRuns)]
+		var files []File
+		if f.doc != "" {
+			files = []File{{Name: "in.json", Data: []byte(f.doc)}}
+		}
+		return RunReqFuzz(f.prog, nil, files)
+	}
+	probes := c20LimitProbes(r, tier)
+	// histories: F = a run in fuzzing mode, P = the probe (ordinary run), Q = another ordinary run
+	patterns := []string{"FP", "PFP", "FFFP", "FPFP", "QFP", "FQP", "FPFPFP", "PF"}
+	k0 := r.Intn(1000)
+	k := k0
+	for pi, p := range probes {
+		pats := []string{patterns[(pi+k0)%7], patterns[(pi+k0+3)%7]}
+		if p.loopFree {
+			pats = append(pats, "PF")
+		}
+		if tier == "thorough" {
+			pats = patterns
+		}
+		plain := RunReq(p.prog, nil, p.files, false)
+		for _, pat := range pats {
+			if pat == "PF" && !p.loopFree {
+				pat = "FP"
+			}
+			if strings.Contains(p.name, "2^20") && tier != "thorough" && len(pat) > 3 {
+				pat = "FP" // a million cells per run
+			}
+			var subs, hist []string
+			for ci, c := range pat {
+				k++
+				switch c {
+				case 'F':
+					if ci == len(pat)-1 {
+						// the probe itself in fuzzing mode: it has no loop, the mode changes nothing
+						subs = append(subs, RunReqFuzz(p.prog, nil, p.files))
+						hist = append(hist, "the probe in fuzzing mode")
+					} else {
+						subs = append(subs, fz(k))
+						hist = append(hist, "fuzzing mode: "+c20FuzzRuns[k%len(c20FuzzRuns)].name)
+					}
+				case 'P':
+					subs = append(subs, plain)
+					hist = append(hist, "the probe")
+				case 'Q':
+					q := probes[(pi*7+k)%len(probes)]
+					if strings.Contains(q.name, "2^20") || strings.Contains(q.name, "nested") {
+						q = probes[0]
+					}
+					subs = append(subs, RunReq(q.prog, nil, q.files, false))
+					hist = append(hist, "ordinary run: "+q.name)
+				}
+			}
+			p := p
+			in := ""
+			if len(p.files) > 0 {
+				in = string(p.files[0].Data)
+				if len(in) > 100 {
+					in = in[:50] + "…" + in[len(in)-30:]
+				}
+			}
+			emit(Case{ID: fmt.Sprintf("%d/%s", pi, pat), Req: "seq " + strings.Join(subs, "|"), ModelReq: plain, Fields: []string{"class", "out"},
+				Fresh: tier == "thorough" || k%3 == 0,
+				Group: fmt.Sprintf("p%03d", pi), GroupFields: []string{"class", "out"},
+				Meta: metaProg(p.prog, "probe", p.name+": limits are fixed, runs in fuzzing mode earlier in the same process do not change them", "history", strings.Join(hist, " | "), "input", in,
+					"row", pat, "col", strings.SplitN(p.name, ",", 2)[0]),
+				Oracle: func(i Resp) string {
+					if i["class"] != p.class {
+						return "after the history the probe must end as in a fresh process: class " + p.class + ", got " + i["class"] + " " + i["msg"]
+					}
+					if out := string(i.Bytes("out")); out != p.out {
+						return fmt.Sprintf("output differs: got %q want %q", c07Short(out), c07Short(p.out))
+					}
+					return ""
+				},
+				NonTrivial: func(i Resp) bool { return i["class"] == p.class }})
+		}
+	}
+}
+
 func init() {
 	register(Family{
 		Name: "recursion-limit", Prop: "C20",
@@ -1115,5 +1479,15 @@ func init() {
 		Name: "binary-deep-recursion", Prop: "C20",
 		Rule: "the real binary (cli request, model compared on exit/out/err): 6 recursion shapes (count-down sum in BEGIN, in a rule body through a variable, mutual in END, through a match expression, inside a condition and a print list, a literal around every call) x depths 1000 / 2000 / 4000 / 4095 / 4096 frames (4098: refused) x 1 / 4 / 8 / 16 nested expressions around every recursive call (additions, array literal + index, object literal + member, negations, multiplications, a mix; thorough: also a call per level) -- nesting x depth <= 70 000, far below finding K1's threshold -- must print the exact value with exit 0 and an empty stderr; the same shapes without a base case (nesting 0 / 1 / 4 / 8 / 16) must keep the prior output, exit with status 1 and name the call depth limit; stderr never holds a Go runtime report (goroutine, fatal error, panic). quick: two shape/kind combinations per depth x nesting in rotation, thorough: all kinds",
 		Gen:  c20BinaryDeep,
+	})
+	register(Family{
+		Name: "fuzz-loop-limit", Prop: "C20",
+		Rule: "runs in fuzzing mode (request flag z; implementation only, the model has no such mode): 6 loop forms (while, for, for / while with a true condition left by break, while with a call as condition, for with an idle post expression) x 20 ways in which a round ends (falling through; continue: plain, before dead code, inside if / if block / else / blocks in blocks, every other round, all but every 97th round, from a match block, from nested match blocks; the break of an inner for / while / for-in loop, also from a match body; an inner loop that continues; a call that returns out of a loop) x 5 places (BEGIN, function, rule body, END, match body) x round counts 10 001 / 10 002 (thorough: 1 .. 100 000): up to 10 001 rounds the run completes with the exact output, from 10 002 rounds on it ends with the runtime error 'fuzz test loop limit' reported on the loop's line with the prior output kept; the stopped programs also as ordinary runs (complete; compared with the model); 6 nests (for / while / for-in / records / calls around an inner loop of 10 001 or 10 002 rounds: the limit is per execution of one loop statement); for-in over 12 000 elements completes",
+		Gen:  c20FuzzLoops,
+	})
+	register(Family{
+		Name: "limits-after-fuzzing-run", Prop: "C20",
+		Rule: "in-process histories (request kind seq) mixing runs in fuzzing mode (10 kinds: trivial, stopped by the loop limit, by the call depth limit, 1000 deep, rules with loops, syntax / runtime / JSON errors, the loop limit hit 300 frames deep) with ordinary probe runs in the orders F P, P F P, F F F P, F P F P, Q F P, F Q P, F P F P F P and P F (the loop-free probe itself in fuzzing mode); probes: the 8 recursion shapes with the deepest point at 257 / 258 / 300 / 512 / 1000 / 1025 / 2048 / 3000 / 4095 / 4096 / 4097 frames, recursion from records, loops of 10 002 .. 15 000 rounds (not limited in an ordinary run), array fill at 2^20 and 2^20+1, printf width 65536 / 65537, input nested 10 000 / 10 001 deep; the answer to the last run is compared with the model's answer for the probe, with the closed-form outcome, with the same probe after the other histories (group) and with a fresh process",
+		Gen:  c20AfterFuzzing,
 	})
 }
